@@ -1,0 +1,66 @@
+//go:build verif
+
+package cqueue
+
+// Contracts for GoVC (see /verif/DESIGN.md). Comment-only: compiles to nothing.
+//
+// AtomicLIFO is a Treiber stack: top is a shared atomic pointer, nodes are written only by the invocation
+// that allocated them, before the successful CompareAndSwap that publishes them, and never afterwards.
+// The abstract stack of q is the chain top, top.next, top.next.next, ...: because published nodes are
+// immutable (node fields are declared immutable: the only writes allowed are to a node its allocator has
+// not published yet) and published nodes only point to published nodes (L2), that chain is a value that
+// only changes when top changes. Ghost pub(n): node n has been published (set once).
+//   L1  a non-nil top is a published node
+//   L2  published nodes exist, are not nil and point to nil or to published nodes
+//   LS  (every single atomic action) top changes either to a node that was never published before and
+//       whose next is the old top - a push of that node's value - or from a non-nil node to that node's
+//       next - a pop of the old top. Nothing else ever happens to the stack, so no element is lost or
+//       handed out twice, and each operation takes effect atomically at that action.
+// Push: the loop is left only through a successful CompareAndSwap, at which the published node carries
+// the pushed value and points to the top the action replaced (linearization point: abstract push).
+// Pop: returns the zero value only after a Load that found the stack empty (linearization point: that
+// Load), otherwise the value of the node its successful CompareAndSwap removed, whose next - read before,
+// immutable since - became the top (linearization point: abstract pop of exactly the top element).
+//
+// lpn(q): the number of linearization points this invocation has performed on q (thread-local): every
+// call of Push and Pop performs exactly one, and what Pop returns is decided by that action alone.
+//
+//@ ghostmap pub: ref -> bool once
+//@ ghostmap lpn: ref -> int local
+//
+//@ object atomicLIFONode
+//@   props C12 C13
+//@   immutable value, next
+//
+//@ object AtomicLIFO
+//@   props C12 C13
+//@   atomic top
+//
+//@ ginv L1: forall q: *AtomicLIFO {aptr(q.top)} :: aptr(q.top) != nil ==> pub(aptr(q.top))
+//@ ginv L2: forall n: *atomicLIFONode {pub(n)} :: pub(n) ==> n != nil && allocated(n) && (n.next != nil ==> pub(n.next))
+//@ gstep LS: forall q: *AtomicLIFO {aptr(q.top)} :: aptr(q.top) != old(aptr(q.top)) ==> (!old(pub(cur(aptr(q.top)))) && pub(aptr(q.top)) && cast(aptr(q.top), atomicLIFONode).next == old(aptr(q.top))) || (old(aptr(q.top)) != nil && aptr(q.top) == cast(old(aptr(q.top)), atomicLIFONode).next)
+//
+//@ func (*AtomicLIFO).Push
+//@   props C12 C13
+//@   opt frame = skip
+//@   requires q != nil
+//@   ghost atomic 2: pub(newNode) := ite(ret, true, pub(newNode))
+//@   ghost atomic 2: lpn(q) := lpn(q) + ite(ret, 1, 0)
+//@   assert atomic 2: lp: ret ==> aptr(q.top) == newNode && newNode.next == old(aptr(q.top)) && newNode.value == value && !old(pub(newNode))
+//@   assert atomic 2: failed: !ret ==> aptr(q.top) == old(aptr(q.top))
+//@   loop 1 invariant private: newNode != nil && !pub(newNode) && newNode.value == value && lpn(q) == old(lpn(q))
+//@   ensures pushed: pub(newNode) && newNode.value == value
+//@   ensures onelp: lpn(q) == old(lpn(q)) + 1
+//
+//@ func (*AtomicLIFO).Pop
+//@   props C12 C13
+//@   opt frame = skip
+//@   requires q != nil
+//@   ghost atomic 1: lpn(q) := lpn(q) + ite(ret == nil, 1, 0)
+//@   ghost atomic 2: lpn(q) := lpn(q) + ite(ret, 1, 0)
+//@   assert atomic 1: same: aptr(q.top) == old(aptr(q.top)) && ret == aptr(q.top)
+//@   assert atomic 2: lp: ret ==> old(aptr(q.top)) == oldTop && aptr(q.top) == oldTop.next && pub(oldTop)
+//@   assert atomic 2: failed: !ret ==> aptr(q.top) == old(aptr(q.top))
+//@   loop 1 invariant nolp: lpn(q) == old(lpn(q))
+//@   ensures value: result == zero() || (pub(oldTop) && result == oldTop.value)
+//@   ensures onelp: lpn(q) == old(lpn(q)) + 1
